@@ -88,7 +88,8 @@ def gamma_value(r):
         d = files_dir()
         return {"exists": pathlib.Path(d) / "a.txt", "exists2": pathlib.Path(d) / "d.txt",
                 "image": pathlib.Path(d) / "b.png", "image2": pathlib.Path(d) / "c.png",
-                "missing": pathlib.Path(d) / "nope.bin", "rel": pathlib.Path("some/rel.txt")}[r[1]]
+                "missing": pathlib.Path(d) / "nope.bin", "rel": pathlib.Path("some/rel.txt"),
+                "relexists": pathlib.Path(os.path.relpath(os.path.join(d, "a.txt")))}[r[1]]
     if k == "url":
         return urlparse(r[1])
     if k == "spliturl":
@@ -149,8 +150,12 @@ def gamma(recipe):
     if isinstance(dt, list):
         tag = dt[0]
         if tag == "category":
-            s = pd.Series(pd.Categorical(vals, categories=None, ordered=bool(dt[1])), **kw)
-            return s
+            cats = []
+            for v in vals:
+                if not (v is None or v is pd.NA or v is pd.NaT or (isinstance(v, float) and v != v)) and \
+                        not any(v is c or v == c for c in cats):
+                    cats.append(v)
+            return pd.Series(pd.Categorical(vals, categories=cats, ordered=bool(dt[1])), **kw)
         if tag == "datetimetz":
             return pd.Series(pd.to_datetime(pd.Series(vals, dtype=object), utc=True).dt.tz_convert(dt[1]).values, **kw) \
                 if False else pd.Series(pd.DatetimeIndex(pd.to_datetime(vals, utc=True)).tz_convert(dt[1]), **kw)
@@ -199,12 +204,12 @@ OBJ_POOL = [
     ["dt", "2020-01-01T00:00:00"], ["dt", "2020-01-01T10:00:00"], ["ts", "2020-01-01"], ["ts", "2020-01-01 05:00"],
     ["date", "2020-01-01"], ["date", "1999-12-31"], ["time", "10:00:00"], ["time", "00:00:00"], ["td", 5],
     ["ppath", "/a/b"], ["ppath", "rel/b"], ["wpath", "C:\\x\\y"], ["path", "exists"], ["path", "exists2"],
-    ["path", "image"], ["path", "image2"], ["path", "missing"], ["path", "rel"],
+    ["path", "image"], ["path", "image2"], ["path", "missing"], ["path", "rel"], ["path", "relexists"],
     ["url", "http://a.b/c"], ["url", "https://x.y"], ["url", "nothing"], ["spliturl", "http://a.b/c"],
     ["uuid", "0b8a22ca-80ad-4df5-85ac-fa49c44b7ede"], ["uuid", "00000000-0000-0000-0000-000000000001"],
     ["ip", "127.0.0.1"], ["ip", "::1"], ["email", "a", "b.c"], ["email", "", ""],
     ["geom", "POINT (1 2)"], ["geom", "LINESTRING (0 0, 1 1)"], ["geom", "POINT EMPTY"],
-    ["bytes", "ab"], ["list"], ["dict"], ["dec", "1"], ["dec", "1.5"], ["frac", "1/2"], ["liar"],
+    ["bytes", "ab"], ["list"], ["dict"], ["dec", "1"], ["dec", "1.5"], ["frac", "1/2"],
     ["str", "a"], ["str", "1"], ["str", "True"],
 ]
 
@@ -338,9 +343,11 @@ def gen_object_column(rng, homogeneous=None):
 
 def gen_categorical_column(rng):
     n = rng.choice([0, 1, 2, 4, 6])
-    k = rng.choice(["str", "int", "bool", "float"])
+    k = rng.choice(["str", "int", "bool", "float", "geom", "ip"])
     pool = {"str": [["str", "a"], ["str", "b"], ["str", "1"]], "int": [["int", 1], ["int", 2]],
-            "bool": [["bool", True], ["bool", False]], "float": [["float", 1.5], ["float", 2.0]]}[k]
+            "bool": [["bool", True], ["bool", False]], "float": [["float", 1.5], ["float", 2.0]],
+            "geom": [["geom", "POINT (1 2)"], ["geom", "LINESTRING (0 0, 1 1)"]],
+            "ip": [["ip", "127.0.0.1"], ["ip", "::1"]]}[k]
     vals = with_nulls(rng, [rng.choice(pool) for _ in range(n)], [["none"], ["nan"]])
     return idx_name(rng, {"values": vals, "dtype": ["category", rng.random() < 0.4], "stream": "categorical:" + k})
 
